@@ -17,7 +17,7 @@ package announce
 // Close: idempotent; every return leaves the mutex as it found it (implicit
 // balance obligation); close(done) at most once.
 //@ func (*Receiver).Close
-//@   property C16
+//@   property C16 C15
 //@   requires recvOK(r) && !held(r.announceMutex)
 //@   modifies r.closed, closedflag(r.done), r.sender.cancelPubSub
 //@   ensures recvOK(r) && r.closed
